@@ -339,7 +339,7 @@ pub fn def() -> PropertyDef {
     PropertyDef {
         id: "C17",
         scenarios: vec![Box::new(Typed(C17Raw))],
-        rule: "Each run: a live session (id 0; against the server in a third of the runs 4, 8, 64, 256 or 1200, and then 0 is among the foreign ids) between the endpoint under test (server on even indexes, client on odd) and the scripted raw peer; 2-10 items interleaved in generated order: own uni / bidi streams and datagrams with tagged payloads, and uni streams, bidi streams and datagrams naming another well-formed session id (4, 8, and random ids needing 1-, 2-, 4- and 8-byte varints up to 4*(2^60-1)); then the session's close capsule. Finally the application itself sends a datagram and opens a uni stream, which must name the live session on the wire. Oracle: the application never receives a foreign payload; all own streams arrive byte-exact and nothing else is handed over; paced own datagrams arrive; every foreign stream is answered with STOP_SENDING(WEBTRANSPORT_BUFFERED_STREAM_REJECTED = 0x3994bd84); the live session survives and ends with its capsule (H3_NO_ERROR on the wire). Ids of the other three stream classes are H3_ID_ERROR and are exercised under C12. Non-trivial = at least one foreign item; distinct = distinct plan hashes. Not a simulation target: the identifier algebra (SessionId/QStreamId/StreamId conversions over all 2^62 values) is pure arithmetic.",
+        rule: "Each run: a live session (id 0; against the server in a third of the runs 4, 8, 64, 256 or 1200, and then 0 is among the foreign ids) between the endpoint under test (server on even indexes, client on odd) and the scripted raw peer; 2-10 items interleaved in generated order: own uni / bidi streams and datagrams with tagged payloads, and uni streams, bidi streams and datagrams naming another well-formed session id (4, 8, and random ids needing 1-, 2-, 4- and 8-byte varints up to 4*(2^60-1)); then the session's close capsule. Finally the application itself sends a datagram and opens a uni stream, which must name the live session on the wire. Oracle: the application never receives a foreign payload; all own streams arrive byte-exact and nothing else is handed over; paced own datagrams arrive; every foreign stream is answered with STOP_SENDING(WEBTRANSPORT_BUFFERED_STREAM_REJECTED = 0x3994bd84); the live session survives and ends with its capsule (H3_NO_ERROR on the wire); the id reported by the handle of every accepted stream is the QUIC id the raw peer opened it under, and the id of the application's own uni stream is the QUIC id the raw peer received it under. Ids of the other three stream classes are H3_ID_ERROR and are exercised under C12. Non-trivial = at least one foreign item; distinct = distinct plan hashes. Not a simulation target: the identifier algebra (SessionId/QStreamId/StreamId conversions over all 2^62 values) is pure arithmetic.",
         assumptions: vec![
             "only session ids the wire format can carry are used; the algebra half of the property is pure and not claimed",
             "raw peer + reference codec are harness code; current-thread runtime; fault-free network",
